@@ -329,4 +329,205 @@ Proof.
   simpl in H. rewrite Forall_forall in H. exact (H q Hq).
 Qed.
 
+(* ---------------------------------------------------------------------------------------------- *)
+(* 5. dfs                                                                                          *)
+
+Section Dfs.
+Variable set_order : list N -> list N.
+Hypothesis Hord : forall L, Permutation L (set_order L).
+
+Lemma flat_map_order_perm Ls : Permutation (concat Ls) (flat_map set_order Ls).
+Proof. induction Ls as [|L r IH]; simpl; [constructor|]. apply Permutation_app; [apply Hord|assumption]. Qed.
+
+Lemma limit_of_le k sh : limit_of k sh <= k.
+Proof. destruct sh; simpl; lia. Qed.
+
+(* a complete partition as the DFS holds it *)
+Definition PartOK (k : nat) (r : list paxis) : Prop :=
+  AxesOK r /\ (forall a, In a alts -> In a (E r)) /\ length r <= k.
+
+Lemma dfs_sound : forall Ls axes sh k r,
+  NoDup (concat Ls) -> incl (concat Ls) alts -> AxesOK axes -> length axes <= k ->
+  (forall a, In a alts -> In a (E axes) \/ In a (concat Ls)) ->
+  (forall s, sh = Some s -> PartOK k s) ->
+  dfs set_order Ls axes sh k votes = Some r -> PartOK k r.
+Proof.
+  induction Ls as [|L1 rest IH]; intros axes sh k r Hnd Hincl HOK Hlen Hcov Hsh Hr.
+  - simpl in Hr. injection Hr as <-. split; [assumption|]. split; [|assumption].
+    intros a Ha. destruct (Hcov a Ha) as [H|[]]. exact H.
+  - cbn [dfs] in Hr.
+    set (g := fun a => negb (memN a (flat_map pa_elems axes))) in *.
+    set (new := filter g (set_order L1)) in *.
+    set (later := filter g (flat_map set_order rest)) in *.
+    simpl in Hnd, Hincl. apply NoDup_app_iff in Hnd. destruct Hnd as (Hnd1 & Hnd2 & Hdis).
+    assert (Hg : forall a, g a = true <-> ~ In a (E axes)).
+    { intros a. unfold g. rewrite negb_true_iff, memN_false. reflexivity. }
+    assert (Hnl : NoDup (new ++ later)).
+    { unfold new, later. rewrite <- filter_app. apply NoDup_filter.
+      eapply Permutation_NoDup; [apply Permutation_app; [apply Hord|apply flat_map_order_perm]|].
+      apply NoDup_app_iff. auto. }
+    assert (Hnl_in : forall a, In a (new ++ later) -> In a alts /\ ~ In a (E axes)).
+    { intros a Ha. unfold new, later in Ha. rewrite <- filter_app in Ha. apply filter_In in Ha. destruct Ha as [Ha Hga].
+      split; [|now apply Hg]. apply Hincl. eapply Permutation_in; [|exact Ha].
+      apply Permutation_sym. apply Permutation_app; [apply Hord|apply flat_map_order_perm]. }
+    revert Hr.
+    match goal with |- fold_left ?f ?l ?s = Some r -> _ =>
+      intros Hr; assert (HP : forall s', fold_left f l s = Some s' -> PartOK k s');
+      [|now apply HP] end.
+    apply (fold_left_inv _ (fun sh' => forall s', sh' = Some s' -> PartOK k s')); [|exact Hsh].
+    intros ext Hext sh1 Hsh1. destruct (length ext <=? limit_of k sh1); [|exact Hsh1].
+    destruct (spc_spec _ _ _ _ _ ext (le_n _) Hnl Hext) as (S1 & S2 & S3 & S4).
+    apply (fold_left_inv _ (fun sh' => forall s', sh' = Some s' -> PartOK k s')); [|exact Hsh1].
+    intros ax Hax sh2 Hsh2. destruct (shorter ax sh2); [|exact Hsh2].
+    destruct (dfs set_order rest ax sh2 k votes) as [c|] eqn:Ec; [|exact Hsh2].
+    destruct (shorter c sh2); [|exact Hsh2].
+    intros s' Es. injection Es as <-.
+    destruct (extend_spec axes ext (limit_of k sh1) ax HOK S1 S2) as (X1 & X2 & X3).
+    + intros a Ha. apply S3 in Ha. now apply Hnl_in.
+    + intros a Ha. apply S3 in Ha. now apply Hnl_in.
+    + exact Hax.
+    + apply (IH ax sh2 k c Hnd2); auto.
+      * intros a Ha. apply Hincl. apply in_or_app. now right.
+      * pose proof (limit_of_le k sh1). lia.
+      * intros a Ha. destruct (Hcov a Ha) as [H|H]; [left; apply X2; now left|].
+        apply in_app_or in H. destruct H as [H|H]; [|now right].
+        left. apply X2. destruct (in_dec N.eq_dec a (E axes)) as [Hi|Hn]; [now left|right].
+        apply S4. unfold new. apply filter_In. split; [eapply Permutation_in; [apply Hord|exact H]|now apply Hg].
+Qed.
+End Dfs.
+
 End Sound.
+
+(* ---------------------------------------------------------------------------------------------- *)
+(* 6. get_L_sets: pairwise disjoint duplicate-free sets inside alts that cover alts                *)
+
+Lemma dedupN_NoDup l : NoDup (dedupN l).
+Proof.
+  induction l as [|a r IH]; simpl; [constructor|]. constructor; [|now apply NoDup_filter].
+  intros H. apply filter_In in H. destruct H as [_ H]. rewrite N.eqb_refl in H. discriminate.
+Qed.
+
+Lemma forallb_false_ex {T} (f : T -> bool) l : forallb f l = false -> exists x, In x l /\ f x = false.
+Proof.
+  induction l as [|x l IH]; simpl; [discriminate|]. destruct (f x) eqn:Ex; simpl.
+  - intros H. destruct (IH H) as (y & Hy & Hf). exists y. auto.
+  - intros _. exists x. auto.
+Qed.
+
+Section LSets.
+Variables (alts : list N) (votes : list (list N)).
+Hypothesis Hvne : votes <> [].
+Hypothesis Hvotes : forall v, In v votes -> incl alts v.
+
+Definition LInv (j : nat) (st : list (list N) * list N * list (list N)) : Prop :=
+  match st with
+  | (vc, prev, acc) =>
+    NoDup (concat acc) /\ incl (concat acc) alts /\ incl prev (concat acc) /\ vc <> [] /\
+    (forall w a, In w vc -> In a w -> In a (concat acc) -> In a prev) /\
+    (forall a, In a alts -> In a (concat acc) \/ forall w, In w vc -> In a w) /\
+    (j <= length (concat acc) \/ forall a, In a alts -> In a (concat acc))
+  end.
+
+Lemma L_step_inv j st i : LInv j st -> LInv (S j) (L_step alts st i).
+Proof.
+  destruct st as [[vc prev] acc]. unfold LInv, L_step.
+  intros (I1 & I2 & I3 & I4 & I5 & I6 & I7).
+  set (F := filter (fun a => negb (memN a prev) && memN a alts)).
+  set (vc' := map F vc). set (lst := dedupN (flat_map last_opt vc')).
+  assert (HF : forall w a, In a (F w) <-> In a w /\ ~ In a prev /\ In a alts).
+  { intros w a. unfold F. rewrite filter_In, andb_true_iff, negb_true_iff, memN_false, memN_In. tauto. }
+  assert (Hvc' : forall w' a, In w' vc' -> In a w' -> In a alts /\ ~ In a (concat acc)).
+  { intros w' a Hw' Ha. apply in_map_iff in Hw'. destruct Hw' as (w & <- & Hw). apply HF in Ha.
+    destruct Ha as (Ha & Hnp & Hal). split; [assumption|]. intros Hc. apply Hnp. eapply I5; eauto. }
+  assert (Hlst : forall a, In a lst -> exists w', In w' vc' /\ In a w').
+  { intros a Ha. apply dedupN_incl in Ha. apply in_flat_map in Ha. destruct Ha as (w' & Hw' & Ha).
+    apply in_last_opt in Ha. eauto. }
+  rewrite concat_app. simpl. rewrite app_nil_r.
+  split; [|split; [|split; [|split; [|split; [|split]]]]].
+  - apply NoDup_app_iff. split; [assumption|]. split; [apply dedupN_NoDup|].
+    intros a Ha Hb. destruct (Hlst a Hb) as (w' & Hw' & Haw). destruct (Hvc' w' a Hw' Haw). contradiction.
+  - intros a Ha. apply in_app_or in Ha. destruct Ha as [Ha|Ha]; [now apply I2|].
+    destruct (Hlst a Ha) as (w' & Hw' & Haw). now destruct (Hvc' w' a Hw' Haw).
+  - intros a Ha. apply in_or_app. now right.
+  - unfold vc'. destruct vc; [congruence|discriminate].
+  - intros w' a Hw' Ha Hc. apply in_app_or in Hc. destruct Hc as [Hc|Hc]; [|assumption].
+    destruct (Hvc' w' a Hw' Ha). contradiction.
+  - intros a Ha. destruct (in_dec N.eq_dec a (concat acc)) as [Hi|Hn]; [left; apply in_or_app; now left|].
+    destruct (I6 a Ha) as [H|H]; [contradiction|].
+    right. intros w' Hw'. apply in_map_iff in Hw'. destruct Hw' as (w & <- & Hw). apply HF.
+    split; [now apply H|]. split; [|assumption]. intros Hp. apply Hn. now apply I3.
+  - destruct I7 as [I7|I7]; [|right; intros a Ha; apply in_or_app; left; now apply I7].
+    destruct (forallb (fun a => memN a (concat acc)) alts) eqn:C.
+    + right. intros a Ha. apply in_or_app. left. rewrite forallb_forall in C. apply memN_In. now apply C.
+    + left. apply forallb_false_ex in C. destruct C as (a0 & Ha0 & C). apply memN_false in C.
+      assert (Hne : lst <> []).
+      { destruct vc as [|w0 vcr] eqn:Evc; [congruence|].
+        assert (Hin : In a0 (F w0)).
+        { apply HF. destruct (I6 a0 Ha0) as [H|H]; [contradiction|]. split; [apply H; now left|].
+          split; [|assumption]. intros Hp. apply C. now apply I3. }
+        assert (Hl : In (last (F w0) 0%N) lst).
+        { unfold lst. apply dedupN_complete. apply in_flat_map. exists (F w0). split; [unfold vc'; now left|].
+          unfold last_opt. destruct (F w0); [contradiction|now left]. }
+        intros E0. rewrite E0 in Hl. contradiction. }
+      rewrite app_length. destruct lst; [congruence|]. simpl. lia.
+Qed.
+
+Lemma L_fold_inv l : forall j st, LInv j st -> LInv (j + length l) (fold_left (L_step alts) l st).
+Proof.
+  induction l as [|i l IH]; intros j st H; simpl; [now rewrite Nat.add_0_r|].
+  rewrite <- Nat.add_succ_comm. apply IH. now apply L_step_inv.
+Qed.
+
+Theorem L_sets_ok : NoDup alts ->
+  NoDup (concat (get_L_sets alts votes)) /\ incl (concat (get_L_sets alts votes)) alts /\
+  forall a, In a alts -> In a (concat (get_L_sets alts votes)).
+Proof.
+  intros Halts. unfold get_L_sets.
+  assert (H0 : LInv 0 (votes, [], [])).
+  { simpl. split; [constructor|]. split; [intros a []|]. split; [intros a []|]. split; [exact Hvne|].
+    split; [intros w a _ _ []|]. split; [intros a Ha; right; intros w Hw; now apply (Hvotes w Hw)|]. left. lia. }
+  pose proof (L_fold_inv (seq 1 (length alts)) 0 _ H0) as H. rewrite seq_length in H. simpl in H.
+  destruct (fold_left (L_step alts) (seq 1 (length alts)) (votes, [], [])) as [[vc prev] acc]. cbn [snd].
+  destruct H as (I1 & I2 & _ & _ & _ & _ & I7). split; [assumption|]. split; [assumption|].
+  destruct I7 as [I7|I7]; [|assumption].
+  apply NoDup_length_incl; assumption.
+Qed.
+End LSets.
+
+(* ---------------------------------------------------------------------------------------------- *)
+(* 7. soundness of the mirror                                                                      *)
+
+Theorem bf_sound set_order alts votes k res :
+  wf_profile alts votes -> votes <> [] -> (forall L, Permutation L (set_order L)) ->
+  bf_algo set_order alts votes k = Some res ->
+  partition_check alts votes res = true /\ length res <= k /\ length res <= (length alts + 1) / 2.
+Proof.
+  intros [Hnd Hc] Hvne Hord Hres. rewrite Forall_forall in Hc.
+  assert (Hvotes : forall v, In v votes -> NoDup v /\ incl alts v).
+  { intros v Hv. split; [eapply Permutation_NoDup; [apply Hc|]; eauto|]. intros a Ha.
+    eapply Permutation_in; [apply Hc|]; eauto. }
+  unfold bf_algo in Hres.
+  set (k' := if (length alts + 1) / 2 <? k then (length alts + 1) / 2 else k) in *.
+  destruct (dfs set_order (get_L_sets alts votes) [] None k' votes) as [r|] eqn:Ed; [|discriminate].
+  injection Hres as <-.
+  destruct (L_sets_ok alts votes Hvne (fun v Hv => proj2 (Hvotes v Hv)) Hnd) as (L1 & L2 & L3).
+  destruct (dfs_sound alts votes Hvotes set_order Hord _ [] None k' r L1 L2) as ((HG & HN) & Hcov & Hlen); auto.
+  - split; constructor.
+  - simpl. lia.
+  - discriminate.
+  - rewrite map_length. split; [|split].
+    + unfold partition_check. apply andb_true_iff. split.
+      * apply (valid_axis_correct alts _ Hnd). rewrite <- flat_map_concat_map.
+        apply NoDup_Permutation; [assumption|exact HN|]. intros a. split; [apply Hcov|].
+        apply (AxesOK_incl alts votes r). now split.
+      * apply forallb_forall. intros axis Hax. apply in_map_iff in Hax. destruct Hax as (A & <- & HA).
+        rewrite Forall_forall in HG. destruct (HG A HA) as (G1 & G2 & G3).
+        unfold axis_ok, sp_check_axis, spw_check_axis, restrict_profile. apply andb_true_iff. split.
+        -- apply valid_axis_correct; [assumption|apply Permutation_refl].
+        -- unfold restrict_ranking. apply axis_test_restricted.
+           ++ intros v Hv. destruct (Hvotes v Hv) as [N1 N2]. split; [assumption|]. split; [|now apply G3].
+              intros a Ha. apply N2. now apply G2.
+           ++ intros a Ha. now apply memN_In.
+    + unfold k' in Hlen. destruct ((length alts + 1) / 2 <? k) eqn:Ek; [apply Nat.ltb_lt in Ek|]; lia.
+    + unfold k' in Hlen. destruct ((length alts + 1) / 2 <? k) eqn:Ek; [|apply Nat.ltb_ge in Ek]; lia.
+Qed.
